@@ -39,6 +39,7 @@ type Program struct {
 	Block      bool       // open with OpenBlocking (C18)
 	Notify     int64      // >= 0 with NotifyOnly: the notifier alone, starting at this offset
 	NotifyOnly bool
+	Durable    bool // record the file-system journal: every acknowledgement of durability is checked against power loss (C06)
 }
 
 func (p Program) String() string {
@@ -56,7 +57,10 @@ type Res struct {
 	Err   string // error class: ok, notfound, invalid, noindex, ctx, closed, err:<text>
 	Panic string
 	N     int // Stat.Messages
+	JLen  int // durable programs: length of the file-system journal when the call returned
 }
+
+var errCancelCause = errors.New("harness: cause given to the cancel function")
 
 func errClass(err error) string {
 	switch {
@@ -123,6 +127,7 @@ func doCall(l klevdb.Log, t, c int, call string, ctxs []context.Context, cancels
 		if p := recover(); p != nil {
 			r.Panic = fmt.Sprint(p)
 		}
+		r.JLen = vos.JournalLen()
 	}()
 	op, arg, _ := strings.Cut(call, ":")
 	a := ints(arg)
@@ -173,6 +178,15 @@ func doCall(l klevdb.Log, t, c int, call string, ctxs []context.Context, cancels
 	case "GC":
 		err := l.GC(time.Duration(a[0]))
 		return Res{Err: errClass(err)}
+	case "Backup":
+		// what the backup holds is read after the execution (fillBackups)
+		err := l.Backup(bkDir(int(a[0])))
+		if err == nil {
+			// keep what this call produced: a later Backup into the same directory overwrites it
+			_ = os.RemoveAll(bkSnap(int(a[0]), t, c))
+			_ = drv.CopyDir(bkDir(int(a[0])), bkSnap(int(a[0]), t, c))
+		}
+		return Res{Err: errClass(err)}
 	case "ConsumeBlocking":
 		bl := l.(klevdb.BlockingLog)
 		n, ms, err := bl.ConsumeBlocking(ctxs[a[0]], a[1], a[2])
@@ -219,7 +233,8 @@ type Execution struct {
 	ParkedDesc string
 	EverParked []bool
 	Ops        int
-	IndexDis   []string // index files that do not match their log after Close (C11 under concurrency)
+	IndexDis   []string    // index files that do not match their log after Close (C11 under concurrency)
+	Journal    []vos.Event // durable programs: the file-system journal of the execution
 }
 
 var workerRoot string
@@ -290,11 +305,30 @@ func Exec(p Program, choices []int, free bool) (*Execution, error) {
 	if p.NotifyOnly {
 		return execNotify(p, choices)
 	}
-	w, err := drv.NewWorld(root(), p.Cfg)
+	var w *drv.World
+	var err error
+	if p.Durable && !free {
+		// the journal starts before the first Open: every handle is tracked and what the
+		// initial letters left unsynced is unsynced
+		w, err = drv.NewWorldWith(root(), p.Cfg, func(w *drv.World) { vos.StartJournal(w.Dir) })
+		defer vos.Stop()
+	} else {
+		w, err = drv.NewWorld(root(), p.Cfg)
+	}
 	if err != nil {
 		return nil, err
 	}
 	defer w.Cleanup()
+	bkBase = w.Dir
+	defer func() {
+		for n := 0; n < 3; n++ {
+			_ = os.RemoveAll(bkDir(n))
+		}
+	}()
+	for n := 0; n < 3; n++ {
+		_ = os.RemoveAll(bkDir(n))
+		_ = os.MkdirAll(bkDir(n), 0o700)
+	}
 	for _, l := range p.Init {
 		if !w.Apply(l) {
 			return nil, fmt.Errorf("initial letter %s failed: %v", l, w.Dis)
@@ -313,7 +347,9 @@ func Exec(p Program, choices []int, free bool) (*Execution, error) {
 	ctxs := make([]context.Context, nctx)
 	cancels := make([]context.CancelFunc, nctx)
 	for i := range ctxs {
-		ctxs[i], cancels[i] = context.WithCancel(context.Background())
+		// cancelled with a cause of its own: the calls must still report ctx.Err(), not the cause
+		c, cc := context.WithCancelCause(context.Background())
+		ctxs[i], cancels[i] = c, func() { cc(errCancelCause) }
 	}
 	defer func() {
 		for _, c := range cancels {
@@ -327,8 +363,10 @@ func Exec(p Program, choices []int, free bool) (*Execution, error) {
 	var fhist []vsched.HistEvent
 	if !free {
 		// file identities for the scheduler's conflict relation on file-system calls
-		vos.Track(w.Dir)
-		defer vos.Stop()
+		if !p.Durable {
+			vos.Track(w.Dir)
+			defer vos.Stop()
+		}
 		vsched.Begin(len(p.Threads), choices)
 	}
 	for ti := range p.Threads {
@@ -464,6 +502,10 @@ func Exec(p Program, choices []int, free bool) (*Execution, error) {
 	if strings.HasPrefix(x.CloseErr, "Close never returns") {
 		return x, nil
 	}
+	if p.Durable && !free {
+		x.Journal = vos.Stop()
+	}
+	fillBackups(p, x)
 	w.M = &model.Log{Live: x.Final, Next: x.FinalN, Monotone: true}
 	w.Dis = nil
 	w.CheckIndexFiles()
@@ -599,10 +641,76 @@ func legal(m *model.Log, cr callRef) bool {
 		return r.Err == "ok"
 	case "GC":
 		return r.Err == "ok"
+	case "Backup":
+		// the backup opens to the log as it was at one moment of the call
+		if r.Err != "ok" || r.Next != m.Next || len(r.Msgs) != len(m.Live) {
+			return false
+		}
+		for i := range m.Live {
+			if !m.Live[i].Same(r.Msgs[i]) {
+				return false
+			}
+		}
+		return true
 	case "Cancel":
 		return true
 	default:
 		return false
+	}
+}
+
+// backup directories of the running execution (C20 under concurrency)
+var bkBase string
+
+func bkDir(n int) string { return fmt.Sprintf("%s.cbk%d", bkBase, n) }
+
+func bkSnap(n, t, c int) string { return fmt.Sprintf("%s.cbk%d.t%dc%d", bkBase, n, t, c) }
+
+// fillBackups opens every backup the program took (after the execution has ended) and puts
+// what it shows into the result of the Backup call; a backup that does not pass Check or
+// cannot be read gets an error result, which no sequential order explains.
+func fillBackups(p Program, x *Execution) {
+	for ti, t := range p.Threads {
+		for ci, c := range t {
+			if !strings.HasPrefix(c, "Backup:") || x.Results[ti][ci].Err != "ok" {
+				continue
+			}
+			r := &x.Results[ti][ci]
+			dir := bkSnap(int(ints(strings.TrimPrefix(c, "Backup:"))[0]), ti, ci)
+			defer os.RemoveAll(dir)
+			o := p.Cfg.Options()
+			if err := klevdb.Check(dir, o); err != nil {
+				r.Err = "err:the backup does not pass Check: " + pathRe.ReplaceAllString(err.Error(), "")
+				continue
+			}
+			o.Check = true
+			l, err := klevdb.Open(dir, o)
+			if err != nil {
+				r.Err = "err:Open(Check) of the backup failed: " + pathRe.ReplaceAllString(err.Error(), "")
+				continue
+			}
+			off := klevdb.OffsetOldest
+			for i := 0; i < 100; i++ {
+				next, msgs, err := l.Consume(off, 40)
+				if err != nil {
+					r.Err = "err:reading the backup failed: " + pathRe.ReplaceAllString(err.Error(), "")
+					break
+				}
+				r.Msgs = append(r.Msgs, toModels(msgs)...)
+				if len(msgs) == 0 && (off >= 0 && next <= off) {
+					break
+				}
+				off = next
+			}
+			r.Next, _ = l.NextOffset()
+			// every message the backup shows is also reachable directly
+			for _, m := range r.Msgs {
+				if g, err := l.Get(m.Off); err != nil || string(g.Value) != string(m.Val) {
+					r.Err = fmt.Sprintf("err:the backup's Get(%d) disagrees with its Consume", m.Off)
+				}
+			}
+			_ = l.Close()
+		}
 	}
 }
 
@@ -767,7 +875,9 @@ func execNotify(p Program, choices []int) (*Execution, error) {
 	ctxs := make([]context.Context, nctx)
 	cancels := make([]context.CancelFunc, nctx)
 	for i := range ctxs {
-		ctxs[i], cancels[i] = context.WithCancel(context.Background())
+		// cancelled with a cause of its own: the calls must still report ctx.Err(), not the cause
+		c, cc := context.WithCancelCause(context.Background())
+		ctxs[i], cancels[i] = c, func() { cc(errCancelCause) }
 	}
 	defer func() {
 		for _, c := range cancels {
